@@ -324,3 +324,147 @@ func returnsOf(fn *ssa.Function) []*ssa.Return {
 	}
 	return out
 }
+
+// ---------------------------------------------------------------- captured variables
+
+// resolveCell follows a captured variable (a free variable of a closure) to the local variable cell of the enclosing
+// function it stands for.
+func resolveCell(fn *ssa.Function, x ssa.Value, depth int) (*ssa.Alloc, *ssa.Function) {
+	if depth > 6 || fn == nil {
+		return nil, nil
+	}
+	switch x := x.(type) {
+	case *ssa.Alloc:
+		return x, fn
+	case *ssa.FreeVar:
+		idx := -1
+		for i, fv := range fn.FreeVars {
+			if fv == x {
+				idx = i
+			}
+		}
+		parent := fn.Parent()
+		if idx < 0 || parent == nil {
+			return nil, nil
+		}
+		for _, b := range parent.Blocks {
+			for _, in := range b.Instrs {
+				if mc, ok := in.(*ssa.MakeClosure); ok && mc.Fn == ssa.Value(fn) && idx < len(mc.Bindings) {
+					return resolveCell(parent, mc.Bindings[idx], depth+1)
+				}
+			}
+		}
+	}
+	return nil, nil
+}
+
+// cellStores lists the values stored into a variable cell by the function that owns it and by every closure that
+// captures it; ok=false when the cell's address is used in any other way.
+func cellStores(cell ssa.Value, depth int) (vals []ssa.Value, ok bool) {
+	if depth > 6 {
+		return nil, false
+	}
+	var refs *[]ssa.Instruction
+	switch c := cell.(type) {
+	case *ssa.Alloc:
+		refs = c.Referrers()
+	case *ssa.FreeVar:
+		refs = c.Referrers()
+	}
+	if refs == nil {
+		return nil, false
+	}
+	for _, ref := range *refs {
+		switch r := ref.(type) {
+		case *ssa.Store:
+			if r.Addr != cell {
+				return nil, false // the address itself is stored somewhere
+			}
+			vals = append(vals, r.Val)
+		case *ssa.UnOp, *ssa.DebugRef:
+		case *ssa.MakeClosure:
+			cl, _ := r.Fn.(*ssa.Function)
+			if cl == nil {
+				return nil, false
+			}
+			for i, b := range r.Bindings {
+				if b == cell && i < len(cl.FreeVars) {
+					vs, ok := cellStores(cl.FreeVars[i], depth+1)
+					if !ok {
+						return nil, false
+					}
+					vals = append(vals, vs...)
+				}
+			}
+		default:
+			return nil, false
+		}
+	}
+	return vals, true
+}
+
+// capturedParam: v loads a variable that, over its whole life and in every closure sharing it, only ever holds one
+// parameter of the function that declares it (a parameter captured by a closure, or spilled to a cell). That parameter
+// and its function are returned.
+func capturedParam(fn *ssa.Function, v ssa.Value) (*ssa.Parameter, *ssa.Function) {
+	ld, ok := v.(*ssa.UnOp)
+	if !ok || ld.Op != token.MUL {
+		return nil, nil
+	}
+	cell, owner := resolveCell(fn, ld.X, 0)
+	if cell == nil {
+		return nil, nil
+	}
+	vals, ok := cellStores(cell, 0)
+	if !ok || len(vals) == 0 {
+		return nil, nil
+	}
+	var prm *ssa.Parameter
+	for _, sv := range vals {
+		p, ok := sv.(*ssa.Parameter)
+		if !ok || (prm != nil && p != prm) {
+			return nil, nil
+		}
+		prm = p
+	}
+	return prm, owner
+}
+
+// exemptVia: a per-function exemption extends to a helper that exists only to do the exempt functions' work: every
+// static call site of the helper lies in an exempt function (or a closure written in one, or another such helper).
+func exemptVia(p *Program, fn *ssa.Function, exempt func(name string) bool, depth int) (string, bool) {
+	if depth > 3 {
+		return "", false
+	}
+	sites := callSitesOf(fn)
+	if len(sites) == 0 {
+		return "", false
+	}
+	via := ""
+	for _, s := range sites {
+		caller := s.Parent()
+		for caller != nil && caller.Parent() != nil {
+			caller = caller.Parent()
+		}
+		if caller == nil {
+			return "", false
+		}
+		if caller.Origin() != nil {
+			caller = caller.Origin()
+		}
+		cn := p.FuncName(caller)
+		if exempt(cn) {
+			via = cn
+			continue
+		}
+		if caller == fn {
+			continue
+		}
+		if v, ok := exemptVia(p, caller, exempt, depth+1); ok {
+			via = v
+			continue
+		}
+		return "", false
+	}
+	return via, via != ""
+}
